@@ -19,7 +19,7 @@ import (
 
 func init() {
 	register(&core.Rule{ID: "L10", Min: 4, Arm64: true,
-		Doc: "Re-test after lock (ast): in every function of package ast that calls (*Node).rlock or (*Node).lock on a node X, each call X.toString() (which reads X.p, X.l as text) is reached only through the raw-true edge of a test X.isRaw() that lies after the lock call and before any non-deferred runlock/unlock of X (forward must-dataflow over the go/cfg graph, states unlocked < locked < locked-and-retested, meet = minimum). A test made before the lock does not count: the representation may change while waiting for the lock.",
+		Doc: "Re-test after lock (ast): in every function of package ast that calls (*Node).rlock or (*Node).lock on a node X, each call X.toString() (which reads X.p, X.l as text) is reached only through an edge that proves X.isRaw() (the test itself, its negation's false edge, or a conjunction/disjunction containing it) and lies after the lock call and before any non-deferred runlock/unlock of X (forward must-dataflow over the go/cfg graph, states unlocked < locked < locked-and-retested, meet = minimum). A test made before the lock does not count: the representation may change while waiting for the lock.",
 		Run: runL10})
 }
 
@@ -121,7 +121,28 @@ func runL10(c *core.Ctx) {
 					})
 					return st
 				}
-				// polarity of a block-ending condition: +1 `X.isRaw()`, -1 `!X.isRaw()`
+				// does cond == val imply X.isRaw()? (go/cfg keeps `a && b` in one node)
+				var implies func(e ast.Expr, val bool) bool
+				implies = func(e ast.Expr, val bool) bool {
+					switch x := ast.Unparen(e).(type) {
+					case *ast.CallExpr:
+						k, r := kindOf(x)
+						return val && k == "israw" && r == recv
+					case *ast.UnaryExpr:
+						if x.Op == token.NOT {
+							return implies(x.X, !val)
+						}
+					case *ast.BinaryExpr:
+						switch {
+						case x.Op == token.LAND && val, x.Op == token.LOR && !val:
+							return implies(x.X, val) || implies(x.Y, val)
+						case x.Op == token.LAND && !val, x.Op == token.LOR && val:
+							return implies(x.X, val) && implies(x.Y, val)
+						}
+					}
+					return false
+				}
+				// +1: the true edge proves the node raw, -1: the false edge does
 				polarity := func(b *cfg.Block) int {
 					if len(b.Succs) != 2 || len(b.Nodes) == 0 {
 						return 0
@@ -130,15 +151,11 @@ func runL10(c *core.Ctx) {
 					if !ok {
 						return 0
 					}
-					pol := 1
-					e = ast.Unparen(e)
-					if u, ok := e.(*ast.UnaryExpr); ok && u.Op == token.NOT {
-						pol, e = -1, ast.Unparen(u.X)
+					if implies(e, true) {
+						return 1
 					}
-					if call, ok := e.(*ast.CallExpr); ok {
-						if k, r := kindOf(call); k == "israw" && r == recv {
-							return pol
-						}
+					if implies(e, false) {
+						return -1
 					}
 					return 0
 				}
